@@ -133,3 +133,26 @@ Definition guard_step (a b it : N) (q : N) (e : ev) : option N :=
 Definition guarded (a b it : N) (t : list ev) : Prop :=
   forall t1 t2, t = t1 ++ (KCall, b) :: t2 ->
   exists u v, t1 = u ++ (KCall, a) :: v /\ ~ In (KCall, it) v.
+
+(* ---------- "accessed only while the goroutine holds the lock" (guardtrace skeletons, coq/gen/GenGuard.v) ----------
+   The automaton counts this goroutine's own Lock/RLock minus Unlock/RUnlock operations on lock [l], saturating at 3
+   (saturation only ever under-counts), and objects to an access of [v] at count 0. *)
+Definition is_op (e : ev) (k1 k2 : kind) (l : N) : bool :=
+  match e with (k, o) => (o =? l) && (match k, k1, k2 with
+    | KLock, KLock, _ | KRLock, _, KRLock | KUnlock, KUnlock, _ | KRUnlock, _, KRUnlock => true | _, _, _ => false end) end.
+Definition is_acq (e : ev) (l : N) : bool := is_op e KLock KRLock l.
+Definition is_rel (e : ev) (l : N) : bool := is_op e KUnlock KRUnlock l.
+
+Definition held_step (l v : N) (q : N) (e : ev) : option N :=
+  if is_acq e l then Some (N.min 3 (q + 1))
+  else if is_rel e l then Some (N.pred q)
+  else if is_call e v then (if q =? 0 then None else Some q)
+  else Some q.
+
+(* the exact count (no saturation) along a trace *)
+Definition depth_step (l : N) (d : N) (e : ev) : N :=
+  if is_acq e l then d + 1 else if is_rel e l then N.pred d else d.
+Definition depth_from (l : N) (d : N) (t : list ev) : N := fold_left (depth_step l) t d.
+
+Definition protected (l v : N) (t : list ev) : Prop :=
+  forall t1 t2, t = t1 ++ (KCall, v) :: t2 -> 0 < depth_from l 0 t1.
